@@ -238,6 +238,13 @@ func genOpt(r *simrt.Rand) OptSpec {
 	s := OptSpec{TransferSize: pick(0, 0, -1, 1, 512, 65536), AttrTTLms: pick(0, 0, -5, 1, 5000), AttrSize: pick(0, 0, -1, 1, 100), NegTTLms: pick(0, -1, 10),
 		DirTTLms: pick(0, -1, 10), DirMax: pick(0, -1, 5), DirMaxSize: pick(0, -1, 5), MaxWorkers: pick(0, 0, -2, 1, 3), MaxConns: pick(0, -1, 1, 50), IdleMs: pick(0, -1, 60000),
 		SendBuf: pick(0, -1, 4096), RecvBuf: pick(0, -1, 4096), Timeouts: r.Int(5), ReadOnly: r.Pct(20), NegCache: r.Pct(30), DirCache: r.Pct(30), RLNil: r.Pct(50)}
+	if r.Pct(20) {
+		// swarm: every scalar field positive, so that only one thing is left to default (the time-outs, the
+		// rate-limit configuration) - the blind spot of a "nothing to default" short cut
+		s.TransferSize, s.AttrTTLms, s.AttrSize, s.NegTTLms = pick(1, 512, 65536), pick(1, 5000), pick(1, 100), 10
+		s.DirTTLms, s.DirMax, s.DirMaxSize, s.MaxWorkers, s.MaxConns, s.IdleMs = 10, 5, 5, pick(1, 3), pick(1, 50), 60000
+		s.SendBuf, s.RecvBuf = 4096, 4096
+	}
 	return s
 }
 
@@ -273,7 +280,7 @@ func shrinkC24(scAny any) []any {
 
 func init() {
 	Register(&Prop{ID: "C24", Level: "exploration",
-		Rule: "one case = a server constructed from drawn options followed by 1-6 runtime updates (UpdateExportOptions, UpdateTuningOptions, UpdatePolicyOptions) whose numeric and duration fields are drawn from {zero, negative, small, normal}, Timeouts from {nil, all-zero, partial, full, negative}, RateLimitConfig nil or set, Squash equal, changed, or the same mode in another letter case; after every update: GetExportOptions is compared field by field with what absnfs.New makes of the same option values (differential against construction, no default constants mirrored), every setting in force must be positive, a rejected update must leave GetExportOptions identical, a Squash change must be rejected, and a client on the simulated network must still get LOOKUP, READ (>=1 byte) and WRITE served; non-trivial = at least one update; distinct by event digest",
+		Rule: "one case = a server constructed from drawn options followed by 1-6 runtime updates (UpdateExportOptions, UpdateTuningOptions, UpdatePolicyOptions) whose numeric and duration fields are drawn from {zero, negative, small, normal}, Timeouts from {nil, all-zero, partial, full, negative} (in 20% of the structs every other scalar is positive, so that the time-outs or the rate-limit configuration are the only thing left to default), RateLimitConfig nil or set, Squash equal, changed, or the same mode in another letter case; after every update: GetExportOptions is compared field by field with what absnfs.New makes of the same option values (differential against construction, no default constants mirrored), every setting in force must be positive, a rejected update must leave GetExportOptions identical, a Squash change must be rejected, and a client on the simulated network must still get LOOKUP, READ (>=1 byte) and WRITE served; non-trivial = at least one update; distinct by event digest",
 		Gen:  genC24, New: func() any { return &C24Scn{} }, Run: runC24, Shrink: shrinkC24, Real: seqReal, Stubbed: seqStubbed})
 	_ = nfsclient.NFS3_OK
 }
